@@ -293,6 +293,8 @@ func (l *Lexer) NextToken() token.Token {
 			return tok
 		}
 		tok = newSingleCharToken(token.ILLEGAL, l.ch, l.lineNumber, l.charNumber, l.utf8CharNumber)
+		// The illegal character can be more than one byte long.
+		tok.StartCharIndex = l.prevCharNumber
 	}
 
 	l.readChar()
